@@ -49,11 +49,14 @@ func runMcache(e *env, c *Case, res *Result) {
 	qname := "cache-history.example.com"
 	for _, el := range v.Seq {
 		switch str(el, "k") {
-		case "mdns":
+		case "mdns", "bad":
 			m, i := num(el, "m"), num(el, "i")
 			mac := u0.MAC(fmt.Sprintf("m%d", 20+m))
 			ip := u0.IP(fmt.Sprintf("a%d", 20+m))
 			msg := mdnsResponse(uint16(0x1000+i), fmt.Sprintf("host%d.local", m), ip.As4())
+			if str(el, "k") == "bad" {
+				msg = msg[:len(msg)-2] // the A record is cut inside its RDATA: malformed
+			}
 			fr, err := e.deliver(vh.FrameIP4UDP(mac, mdnsMAC, ip, mdnsIP, 5353, 5353, msg))
 			if err != nil {
 				got = append(got, "parse-error")
@@ -65,8 +68,10 @@ func runMcache(e *env, c *Case, res *Result) {
 				got = append(got, "error")
 			case len(v4) == 0:
 				got = append(got, "cached")
-			default:
+			case len(v4) == 1 && v4[0].NameEntry.Name == fmt.Sprintf("host%d", m) && v4[0].Addr.IP == ip:
 				got = append(got, "names")
+			default:
+				got = append(got, fmt.Sprintf("wrong-names%v", v4))
 			}
 		case "age":
 			ageMDNSCache(h, 6*time.Minute)
@@ -99,6 +104,22 @@ func runMcache(e *env, c *Case, res *Result) {
 			} else {
 				got = append(got, "empty")
 			}
+		}
+	}
+	// property level (C17): a well-formed response of a (station, id) that was not successfully processed in the last
+	// five minutes must yield its names and addresses, and a malformed one must be rejected with an error; what the cache
+	// does beyond that is mechanism
+	for j := range want {
+		if j >= len(got) {
+			break
+		}
+		if want[j] == "names" && got[j] != "names" {
+			addCmp(res, "spec", "history.names", fmt.Sprintf("step %d: %v", j+1, want), fmt.Sprint(got), true)
+			break
+		}
+		if want[j] == "error" && got[j] != "error" {
+			addCmp(res, "reject", "history.accepted", fmt.Sprintf("step %d: %v", j+1, want), fmt.Sprint(got), true)
+			break
 		}
 	}
 	if fmt.Sprint(got) != fmt.Sprint(want) {
